@@ -95,6 +95,8 @@ pub struct Knobs {
     pub extra_clone_p: u32,
     /// prefer consuming calls on objects that take part in adoptions
     pub consuming_on_adopted: bool,
+    /// out of 8: a destructor downgrades each of its stored handles and the program keeps the Weak
+    pub dtor_downgrade_p: u32,
 }
 
 #[derive(Default, Clone)]
@@ -225,7 +227,7 @@ pub fn structured(rng: &mut Rng, kn: &Knobs, g: &mut GenState) -> Vec<Op> {
             // hub: object 0 adopts and is adopted by many peers, so that its table
             // (and the trace's map) grows past the initial capacities
             for i in 1..k {
-                match rng.below(4) {
+                match rng.below(if k >= 8 { 8 } else { 4 }) {
                     0 => edges.push((0, i, mult(rng))),
                     1 => edges.push((i, 0, mult(rng))),
                     _ => {
